@@ -205,6 +205,21 @@ func genModule(pkgs []*packages.Package, m *Module, byName map[string]*Module, o
 			e.Specs[target.PkgPath] = merged
 			continue
 		}
+		if prev := e.Specs[up.PkgPath]; prev != nil {
+			// a second used module of the same foreign package: the contracts and definitions of both are visible
+			merged, err := mergeSpec(prev, um.Spec)
+			if err != nil {
+				rr.Errors = append(rr.Errors, fmt.Sprintf("module %s: %v", m.Name, err))
+				continue
+			}
+			for k, f := range merged.Funcs {
+				c := *f
+				c.Imported = false
+				merged.Funcs[k] = &c
+			}
+			e.Specs[up.PkgPath] = merged
+			continue
+		}
 		e.Specs[up.PkgPath] = um.Spec
 	}
 	for _, p := range pkgs {
